@@ -184,7 +184,197 @@ def ForAllInt(j, lo, hi, body):
     return SBool(z3.ForAll([j], z3.Implies(z3.And(zint(lo) <= j, j < zint(hi)), body())))
 
 
-UNITS = [CheckConflictingEffects(), CheckConflictingSimulated()]
+# ============================================================================= the callers: which bookkeeping the checker is handed
+# The two functions above decide a conflict from the summary (A, D, S) they are GIVEN.  Order-independence at one time point therefore also
+# needs every insertion path to hand over the summary of THAT time point (same key for the assigned map, the inc/dec set, the simulated
+# effect and the stored effects) and to store the new effect / simulated effect only when the check returned.
+import unified_planning.model.transition as _tr
+import unified_planning.model.mixins.timed_conds_effs as _tce
+import unified_planning.model.problem as _pb
+from unified_planning.model.timing import Timing as _Timing
+from unified_planning.exceptions import UPUsageError as _Usage24
+
+TK = Ref("TimeKey24")            # a time expression used as dictionary key (Timing, Timepoint, number)
+ASG, INC, SIM, LST, ENV24 = Ref("AssignedSummary24"), Ref("IncDecSummary24"), Ref("SimulatedEffect24"), Ref("EffectList24"), Ref("Environment24")
+SIM.null = z3.Const("SimulatedEffect24.None", SIM.z3sort())
+EFF24 = Ref("Effect24", fields={"environment": ENV24})
+SIM.fields["environment"] = ENV24
+MAPA, MAPI, MAPS, MAPE = Ref("AssignedByTime24"), Ref("IncDecByTime24"), Ref("SimulatedByTime24"), Ref("EffectsByTime24")
+FROM = z3.Function("Timing.from_time", TK.z3sort(), TK.z3sort())
+ASG_AT = z3.Function("assigned_at", TK.z3sort(), ASG.z3sort())
+INC_AT = z3.Function("incdec_at", TK.z3sort(), INC.z3sort())
+SIM_AT = z3.Function("simulated_at", TK.z3sort(), SIM.z3sort())
+EFF_AT = z3.Function("effects_at", TK.z3sort(), LST.z3sort())
+MAPA.methods["setdefault"] = lambda e, st, sv, a, k: iter([(st, ASG.wrap(ASG_AT(a[0].z)))])
+MAPI.methods["setdefault"] = lambda e, st, sv, a, k: iter([(st, INC.wrap(INC_AT(a[0].z)))])
+MAPI.methods["get"] = lambda e, st, sv, a, k: iter([(st, INC.wrap(INC_AT(a[0].z)))])        # absent = the empty summary of that time
+MAPS.methods["get"] = lambda e, st, sv, a, k: iter([(st, SIM.wrap(SIM_AT(a[0].z)))])        # nullable: None when nothing is stored
+
+
+def _maps_set(e, st, sv, a, k):
+    st.ghost["stored"] = st.ghost.get("stored", ()) + (("simulated", a[0], a[1]),)
+    yield st, None
+
+
+MAPS.methods["__setitem__"] = _maps_set
+MAPE.methods["setdefault"] = lambda e, st, sv, a, k: iter([(st, LST.wrap(EFF_AT(a[0].z)))])
+
+
+def _append(e, st, sv, a, k):
+    st.ghost["stored"] = st.ghost.get("stored", ()) + (("effect", sv, a[0]),)
+    yield st, None
+
+
+LST.methods["append"] = _append
+
+
+def _checker(tag):
+    def c(e, st, a, k):
+        st.ghost["checks"] = st.ghost.get("checks", ()) + ((tag, tuple(a), tuple(st.ghost.get("stored", ()))),)
+        s2 = st.fork()
+        yield s2.note("conflict"), ExcVal(UPConflictingEffectsException, (), tag)
+        yield st.note("no-conflict"), None
+    return c
+
+
+class Caller(Unit):
+    prop = "C24"
+    allowed_raises = (UPConflictingEffectsException, _Usage24)
+
+    def __init__(self, which):
+        self.which = which
+        self.name = {"inst_add": "UntimedEffectMixin._add_effect_instance", "inst_sim": "UntimedEffectMixin.set_simulated_effect",
+                     "timed_add": "TimedCondsEffs._add_effect_instance", "timed_sim": "TimedCondsEffs.set_simulated_effect",
+                     "problem_add": "Problem._add_effect_instance"}[which]
+        self.doc = ("the checker is called exactly once, before anything is stored, with the summaries (assigned, inc/dec, simulated effect) kept for "
+                    "the time point the effect is added at (after normalisation of the time expression); the effect / simulated effect is stored "
+                    "under that same time point only if the checker returned")
+
+    def target(self):
+        return {"inst_add": _tr.UntimedEffectMixin._add_effect_instance, "inst_sim": _tr.UntimedEffectMixin.set_simulated_effect,
+                "timed_add": _tce.TimedCondsEffs._add_effect_instance, "timed_sim": _tce.TimedCondsEffs.set_simulated_effect,
+                "problem_add": _pb.Problem._add_effect_instance}[self.which]
+
+    def configure(self, eng):
+        eng.contracts[eff.check_conflicting_effects] = _checker("effects")
+        eng.contracts[eff.check_conflicting_simulated_effects] = _checker("simulated")
+        eng.contracts[_Timing.from_time] = lambda e, st, a, k: iter([(st, TK.wrap(FROM(a[0].z)))])
+        eng.partial_classes.update({_tr.UntimedEffectMixin, _tce.TimedCondsEffs, _pb.Problem})
+
+    def setup(self, eng, st):
+        env = ENV24.fresh("environment")
+        x = (EFF24 if self.which.endswith("add") else SIM).fresh("new")
+        envf = B24._uf(("Effect24" if self.which.endswith("add") else "SimulatedEffect24") + ".environment", x.t.z3sort(), ENV24.z3sort())
+        if self.which.endswith("add"):
+            st.assume(envf(x.z) == env.z)            # asserted by the code: same environment (a different one is a usage error, not a conflict)
+        else:
+            st.assume(x.z != SIM.null)
+        t = TK.fresh("timing")
+        if self.which.startswith("inst"):
+            asg, inc, sim, lst = ASG.fresh("assigned"), INC.fresh("incdec"), SIM.fresh("simulated"), LST.fresh("effects")
+            w = st.alloc(Rec(_tr.UntimedEffectMixin, {"_environment": env, "_fluents_assigned": asg, "_fluents_inc_dec": inc, "_simulated_effect": sim,
+                                                      "_effects": lst}), "action")
+            return [w, x], {}, dict(w=w, x=x, env=env, envf=envf, asg=asg, inc=inc, sim=sim, lst=lst, key=None)
+        flds = {"_fluents_assigned": MAPA.fresh("assigned"), "_fluents_inc_dec": MAPI.fresh("incdec"), "name": Str.fresh("name")}
+        if self.which == "problem_add":
+            flds.update({"_env": env, "_timed_effects": MAPE.fresh("timed_effects")})
+            w = st.alloc(Rec(_pb.Problem, flds), "problem")
+            key = t.z
+        else:
+            flds.update({"_environment": env, "_simulated_effects": MAPS.fresh("simulated"), "_effects": MAPE.fresh("effects")})
+            w = st.alloc(Rec(_tce.TimedCondsEffs, flds), "durative")
+            key = FROM(t.z) if self.which == "timed_add" else t.z
+        return [w, t, x], {}, dict(w=w, x=x, env=env, envf=envf, key=key)
+
+    def post(self, eng, ctx, st, out):
+        checks, stored = st.ghost.get("checks", ()), st.ghost.get("stored", ())
+        x, key, add = ctx["x"], ctx["key"], self.which.endswith("add")
+        st.oblige("the checker is called exactly once", z3.BoolVal(len(checks) == 1 and checks[0][0] == ("effects" if add else "simulated")))
+        if len(checks) != 1:
+            return
+        tag, a, stored_before = checks[0]
+        st.oblige("nothing is stored before the checker has returned", z3.BoolVal(len(stored_before) == 0))
+        zz = lambda v: v.z if isinstance(v, SRef) else None      # noqa: E731
+        if key is None:           # one time point only: the action's own summaries
+            want = [x.z, None, ctx["sim"].z, ctx["asg"].z, ctx["inc"].z] if add else [x.z, None, ctx["asg"].z, ctx["inc"].z]
+        else:
+            want = [x.z, key, (None if self.which == "problem_add" else SIM_AT(key)), ASG_AT(key), INC_AT(key)] if add else [x.z, key, ASG_AT(key), INC_AT(key)]
+        got = [zz(v) for v in a[:len(want)]]
+        names = ["the new effect", "the time point", "the simulated effect of that time point", "the assigned-fluents summary of that time point",
+                 "the increase/decrease summary of that time point"] if add else \
+                ["the new simulated effect", "the time point", "the assigned-fluents summary of that time point", "the increase/decrease summary of that time point"]
+        for nm, g, w_ in zip(names, got, want):
+            if w_ is None:
+                st.oblige(f"the checker is given {nm}: none", z3.BoolVal(g is None))
+            else:
+                st.oblige(f"the checker is given {nm}", (g == w_) if g is not None else z3.BoolVal(False))
+        if out[0] == "raise":
+            st.oblige("a rejected insertion stores nothing", z3.BoolVal(len(stored) == 0))
+            if out[1].cls is _Usage24:
+                st.oblige("usage error only for a simulated effect of another environment", ctx["envf"](x.z) != ctx["env"].z)
+            return
+        if add:
+            ok = len(stored) == 1 and stored[0][0] == "effect" and z3.is_expr(zz(stored[0][2]))
+            st.oblige("an accepted effect is stored exactly once", z3.BoolVal(ok))
+            if ok:
+                where = ctx["lst"].z if key is None else EFF_AT(key)
+                st.oblige("the accepted effect is appended to the effects of that same time point", z3.And(stored[0][1].z == where, stored[0][2].z == x.z))
+        elif key is None:
+            cur = st.getfield(ctx["w"], "_simulated_effect")
+            st.oblige("an accepted simulated effect becomes the action's simulated effect", z3.BoolVal(isinstance(cur, SRef)) if not isinstance(cur, SRef) else cur.z == x.z)
+        else:
+            ok = len(stored) == 1 and stored[0][0] == "simulated"
+            st.oblige("an accepted simulated effect is stored exactly once", z3.BoolVal(ok))
+            if ok:
+                st.oblige("the accepted simulated effect is stored under that same time point", z3.And(stored[0][1].z == key, stored[0][2].z == x.z))
+
+    def replay(self, ctx, model, label):
+        return replay_callers({"caller": self.which})
+
+
+def replay_callers(c):
+    """order independence at one time point, natively: a simulated effect and an effect on one of its (numeric) fluents, both orders, for every
+    spelling of the time point the public API accepts"""
+    from unified_planning.shortcuts import (Fluent, IntType, DurativeAction, InstantaneousAction, Problem, SimulatedEffect, StartTiming, EndTiming,
+                                            GlobalStartTiming, Timepoint, TimepointKind)
+    from fractions import Fraction
+    n = Fluent("n24", IntType())
+    fn = lambda *a: []      # noqa: E731
+    out = []
+
+    def raises(f):
+        try:
+            f()
+            return False
+        except UPConflictingEffectsException:
+            return True
+    spell = [("StartTiming()", StartTiming(), StartTiming()), ("Timepoint(START)", Timepoint(TimepointKind.START), StartTiming()),
+             ("Timepoint(END)", Timepoint(TimepointKind.END), EndTiming())]
+    for nm, t_eff, t_sim in spell:
+        for kind in ("assign", "increase"):
+            def add(a, t=t_eff, kind=kind):
+                (a.add_effect(t, n, 3) if kind == "assign" else a.add_increase_effect(t, n, 3))
+            a1 = DurativeAction("a1")
+            a1.set_simulated_effect(t_sim, SimulatedEffect([n()], fn))
+            r1 = raises(lambda: add(a1))
+            a2 = DurativeAction("a2")
+            add(a2)
+            r2 = raises(lambda: a2.set_simulated_effect(t_sim, SimulatedEffect([n()], fn)))
+            if r1 != r2:
+                out.append(f"durative, {kind} at {nm}: simulated-then-effect raises={r1}, effect-then-simulated raises={r2}")
+    i1 = InstantaneousAction("i1")
+    i1.set_simulated_effect(SimulatedEffect([n()], fn))
+    r1 = raises(lambda: i1.add_effect(n, 3))
+    i2 = InstantaneousAction("i2")
+    i2.add_effect(n, 3)
+    r2 = raises(lambda: i2.set_simulated_effect(SimulatedEffect([n()], fn)))
+    if r1 != r2:
+        out.append(f"instantaneous: simulated-then-effect raises={r1}, effect-then-simulated raises={r2}")
+    return {"reproduced": bool(out), "concrete": c, "observed": out[:4] or "conflict detection is order-independent on the probes"}
+
+
+from pyvc import builtins as B24
+UNITS = [CheckConflictingEffects(), CheckConflictingSimulated()] + [Caller(w) for w in ("inst_add", "inst_sim", "timed_add", "timed_sim", "problem_add")]
 
 
 # ------------------------------------------------------------------------- replay (concretiser)
@@ -292,6 +482,12 @@ CheckConflictingEffects.replay = _replay
 
 
 def replay_file(data):
+    if isinstance(data.get("concrete"), dict) and "caller" in data["concrete"]:
+        return replay_callers(data["concrete"])
+    return _replay_file_checkers(data)
+
+
+def _replay_file_checkers(data):
     return replay_concrete(data["concrete"])
 
 
